@@ -18,8 +18,9 @@ package main
 
 //@ func loadPatches(fset, opts, stdin) (progs, err)
 //@   requires opts != nil
-//@   assigns nothing
+//@   assigns scanFailed, listReadFailures
 //@   ensures err == nil ==> wfProgs(progs)
+//@   ensures [C16] a-list-that-could-not-be-read-completely-is-reported: err == nil ==> listReadFailures == old(listReadFailures)
 //@   ensures [C09] one-program-per-patch-flag: err == nil && len(opts.PatchesFile) == 0 ==> len(progs) == len(opts.Patches) + ite(len(opts.Patches) == 0, 1, 0)
 //@   ensures [C09] at-least-the-patch-flags: err == nil ==> len(progs) >= len(opts.Patches)
 //@   loop 0
@@ -140,7 +141,10 @@ package main
 //@   at call golang.org/x/tools/imports.Process set runFailures = runFailures + ite(result1 != nil, 1, 0)
 //@   at call os.WriteFile set runFailures = runFailures + ite(result0 != nil, 1, 0)
 //@   at call (*main.mainCmd).preview set runFailures = runFailures + ite(result0 != nil, 1, 0)
+//@   at call go.uber.org/multierr.Combine assert [C16] combined-errors-are-errors: forall i int {arg0[i]} :: 0 <= i && i < len(arg0) ==> arg0[i] != nil
+//@   at call go.uber.org/multierr.Combine assert [C16] one-combined-error-per-failed-file: len(arg0) >= runFailures - old(runFailures)
 //@   ensures [C16] exit-status-0-means-no-file-failed: err == nil ==> runFailures == old(runFailures)
+//@   ensures [C16] exit-status-0-means-every-listed-patch-was-read: err == nil ==> listReadFailures == old(listReadFailures)
 //@   ensures [C16] every-failed-file-is-in-the-returned-error: errCount(err) >= runFailures - old(runFailures)
 //@   loop 0
 //@     invariant [C12] dry-run-frame: (opts.Diff || opts.Print) ==> disk == old(disk)
@@ -211,12 +215,14 @@ package main
 //@   ensures same-or-fresh-array: l.progs.arr == old(l.progs.arr) || fresh(l.progs.arr)
 
 //@ func (l *patchLoader) LoadFileList(patchList) (err)
-//@   assigns l.progs, elems(l.progs)
+//@   assigns l.progs, elems(l.progs), scanFailed, listReadFailures
 //@   ensures [C09] only-appends: len(l.progs) >= old(len(l.progs))
 //@   ensures [C09] earlier-programs-kept-in-order: forall i int {l.progs[i]} :: 0 <= i && i < old(len(l.progs)) ==> l.progs[i] == old(l.progs[i])
 //@   ensures [C09] appended-are-wellformed: forall i int {l.progs[i]} :: old(len(l.progs)) <= i && i < len(l.progs) ==> wfProg(l.progs[i])
 //@   ensures same-or-fresh-array: l.progs.arr == old(l.progs.arr) || fresh(l.progs.arr)
+//@   ensures [C16] a-list-that-could-not-be-read-completely-is-reported: err == nil ==> listReadFailures == old(listReadFailures)
 //@   loop 0
+//@     invariant [C16] listReadFailures == old(listReadFailures) + ite(scanFailed[scanner], 1, 0)
 //@     invariant l.progs.arr == old(l.progs.arr) || fresh(l.progs.arr)
 //@     invariant len(l.progs) >= old(len(l.progs))
 //@     invariant forall i int {l.progs[i]} :: 0 <= i && i < old(len(l.progs)) ==> l.progs[i] == old(l.progs[i])
